@@ -97,7 +97,7 @@ PROPS['C11'] = dict(
     technique='Verus postconditions that define every limb of the selected column from the inputs only, plus frame clauses over all other limb blocks, on the extracted real text',
     level_text='Unbounded proof for the coefficient-domain column operations: each ensures gives final(res).limb(col, j) for all j < size as a function of the read-only inputs (no old(res) on the right-hand side for out-of-place ops) and frame_ok: every block outside (col, 0..size) is unchanged.',
     level_note='Covers the vec_znx_* reference operations and the transform-domain wrappers of vec_znx_dft.rs (fft64 and ntt120, numeric kernels abstract) under contract (see functions_under_contract); idft/svp/vmp/convolution and the core layer are not covered by this check.',
-    units=[V('vec_znx_arith'), V('vec_znx_ring'), V('vec_znx_merge'), V('vec_znx_split'), V('vec_znx_big'), V('vec_znx_normalize'), V('vec_znx_dft'), V('vec_znx_dft_ntt120'),
+    units=[V('vec_znx_arith'), V('vec_znx_ring'), V('vec_znx_merge'), V('vec_znx_split'), V('vec_znx_big'), V('vec_znx_normalize'), V('vec_znx_dft'), V('vec_znx_dft_ntt120'), V('glwe_ops'),
            K('poulpy-cpu-ref', 'verif_kani::c11_ak', ['c11_ak_dft_apply__a3_r2_step2_off1', 'c11_ak_dft_apply__a2_r3_step1_off0', 'c11_ak_dft_apply__a3_r3_step2_off0', 'c11_ak_dft_apply__a2_r2_step1_off1'],
              cls='bounded', tier='thorough', timeout=1500, bound='FFT64Ref, N=8, two output columns, (a_size, res_size, step, offset) constant per harness; numeric kernels abstract',
              functions=['VecZnxDftApply::vec_znx_dft_apply (fft64 reference, real shape logic; fft_ref / reim_from_znx_i64_ref / table fills replaced by bit-level mixers)'],
@@ -146,7 +146,7 @@ PROPS['C12'] = dict(
         K('poulpy-cpu-ref', 'hal_defaults::scratch::verif_kani', ['c12_take_slice_aligned_contract', 'c12_take_slice_aligned_panics_iff_too_small',
           'c12_take_slice_default_u8', 'c12_take_slice_default_i64', 'c12_take_slice_default_f64', 'c12_take_slice_default_i128'], cls='complete', timeout=600,
           functions=['hal_defaults::scratch::take_slice_aligned', 'HalScratchDefaults::take_slice_default', 'HalScratchDefaults::scratch_available_default', 'HalScratchDefaults::scratch_from_bytes_default']),
-        V('vec_znx_ring'), V('vec_znx_normalize'), V('hal_glue'),
+        V('vec_znx_ring'), V('vec_znx_normalize'), V('hal_glue'), V('glwe_ops'),
         K('poulpy-cpu-ref', 'verif_kani::c12_window', [f'c12_window_{op}__n4' for op in ('normalize_assign', 'rotate_assign', 'automorphism_assign', 'mul_xp_minus_one_assign', 'lsh_assign', 'rsh_assign')],
           cls='bounded', timeout=1200, bound='N=4 (limb byte size 32: not a multiple of the 64-byte alignment), size 2',
           functions=['HAL traits VecZnx{Normalize,Rotate,Automorphism,MulXpMinusOne,Lsh,Rsh}Assign with a scratch of exactly the companion *_tmp_bytes; two runs with different scratch contents']),
@@ -287,8 +287,8 @@ PROPS['C19'] = dict(
 PROPS['C02'] = dict(
     level='proof',
     technique='Verus contracts on the real text of the GLWE operation wrappers (trait default methods of poulpy-core/src/api/operations.rs) against the HAL column contracts that are themselves proved for the reference implementation (units vec_znx_arith / vec_znx_ring, same contract text); Kani bounded contract check of the same wrappers on a marker module as a second, executable reading',
-    level_text='Unbounded (every ring degree, rank, limb count, rotation amount, limb value inside the no-overflow domain): glwe_add_into, glwe_add_assign, glwe_sub, glwe_sub_assign, glwe_sub_negate_assign, glwe_negate, glwe_negate_assign, glwe_copy, glwe_rotate, glwe_rotate_assign, glwe_mul_xp_minus_one(+_assign) apply the exact ring operation column by column with the documented rank rule (missing columns of the lower-rank operand count as zero) and HAL size rule, touch no limb beyond the active size, never panic on an admissible call, and the in-place rotations need exactly glwe_rotate_tmp_bytes of scratch; column-wise equality implies phase equality for every key. Bounded (Kani, N = 2/4, ranks 0..2, sizes 1..2): the same statements checked by executing the real wrappers on symbolic limbs.',
-    level_note='The HAL contracts are proved for the reference backend functions; the one-line delegation Module -> backend -> reference function is syntactic (trusted). GGSW variants, glwe_lsh/rsh (their HAL kernels are only covered by the bounded C08 harnesses) and glwe_normalize are not covered. glwe_negate assigns res.base2k on a by-value view (no effect on the owner): equal radices are a stated precondition.',
+    level_text='Unbounded (every ring degree, rank, limb count, rotation amount, limb value inside the no-overflow domain): glwe_add_into, glwe_add_assign, glwe_sub, glwe_sub_assign, glwe_sub_negate_assign, glwe_negate, glwe_negate_assign, glwe_copy, glwe_rotate, glwe_rotate_assign, glwe_mul_xp_minus_one(+_assign) (for the last four both copies of the text: the public API defaults and the *Default traits Module<BE> dispatches to) apply the exact ring operation column by column with the documented rank rule (missing columns of the lower-rank operand count as zero) and HAL size rule, touch no limb beyond the active size, never panic on an admissible call, and the in-place rotations need exactly glwe_rotate_tmp_bytes of scratch; column-wise equality implies phase equality for every key. glwe_rsh, glwe_lsh(+_assign, _add, _sub), glwe_normalize(+_assign) (both copies): column i of the result is the HAL shift / normalisation (an uninterpreted deterministic function of radix, amount and the operand column only) of column i, columns a lower-rank operand lacks count as zero, nothing else is written, exactly glwe_shift_tmp_bytes / glwe_normalize_tmp_bytes of scratch suffices. Bounded (Kani, N = 2/4, ranks 0..2, sizes 1..2): the same statements checked by executing the real wrappers on symbolic limbs.',
+    level_note='The HAL contracts are proved for the reference backend functions; the one-line delegation Module -> backend -> reference function is syntactic (trusted). GGSW variants are not covered; WHAT the HAL shift / normalisation computes is the C08 question (bounded harnesses there), here only its column-wise delegation is proved.',
     units=[V('glwe_ops'), V('vec_znx_arith'), V('vec_znx_ring'),
            K('poulpy-cpu-ref', 'verif_kani::c02', ['c02_glwe_add_sub__ranks_1_1', 'c02_glwe_add_sub__ranks_2_0', 'c02_glwe_add_sub__ranks_0_1', 'c02_glwe_assign_negate_copy__rank1'],
              cls='bounded', timeout=1500, bound='N=2, ranks 0..2, sizes 1..2',
@@ -298,7 +298,7 @@ PROPS['C02'] = dict(
     trusted_base=VERUS_TRUST + [FMT_STUB, 'I-NEWTYPE / I-GLWE (vx/prelude/newtypes.rs, glwe.rs): Rank/Base2K/Degree wrappers and the GLWE container restated with their specifications (operator impl bodies external)',
                   'HAL dispatch: Module<BE>::vec_znx_* forwards to the reference function whose contract is proved (syntactic)'],
     assumptions=['no i64 overflow in limb sums/differences, no limb equal to i64::MIN where a column is negated or rotated (preconditions)', 'operands and result use the same limb radix (asserted by the code except in glwe_negate / glwe_rotate / glwe_copy / glwe_mul_xp_minus_one)'],
-    remainder='GGSW variants, glwe_lsh/rsh, glwe_normalize incl. cross-radix, one unit of the last limb per truncated operand (no truncation occurs in these ops)',
+    remainder='GGSW variants; the value computed by the HAL shifts / cross-radix normalisation (C08); one unit of the last limb per truncated operand (no truncation occurs in the ring operations)',
 )
 
 PROPS['C01'] = dict(
